@@ -49,7 +49,7 @@ type concWorld struct{}
 
 func (concWorld) Name() string { return "W-CONC" }
 
-var concPrivateOps = []string{"new", "dec-cbor", "decv-cbor", "dec-json", "decv-json", "dec-cose", "decv-cose", "build-enc", "sign", "sign-verify"}
+var concPrivateOps = []string{"new", "dec-cbor", "decv-cbor", "dec-json", "decv-json", "dec-cose", "decv-cose", "build-enc", "sign", "sign-verify", "dec-cbor-damaged", "dec-json-damaged"}
 var concSharedOps = []string{"s.validate", "s.getters", "s.enc-cbor", "s.enc-json", "s.venc", "s.verify", "s.evjson", "s.full"}
 
 func (concWorld) Gen(prop, tier string, idx int, r *Rng) *Trace {
@@ -215,6 +215,19 @@ func (e *concEnv) do(op Op) string {
 		return digestClaims(psatoken.DecodeClaimsFromJSON(cp(e.jsn[ci])))
 	case "decv-json":
 		return digestClaims(psatoken.DecodeAndValidateClaimsFromJSON(cp(e.jsn[ci])))
+	case "dec-cbor-damaged":
+		// a structurally damaged message (missing member, wrong type, ...): decoding fails part-way
+		b, _ := applyTreeFault(cp(e.cbor[ci]), op.C*7+op.D, op.D+len(treeSubst)+1)
+		if op.D%2 == 0 {
+			b, _ = applyTreeFault(cp(e.cbor[ci]), op.C*7+op.D, op.D)
+		}
+		return digestClaims(psatoken.DecodeClaimsFromCBOR(b))
+	case "dec-json-damaged":
+		b, _ := applyJSONFault(cp(e.jsn[ci]), op.C*7+op.D, op.D+len(jsonSubst)+2)
+		if op.D%2 == 0 {
+			b, _ = applyJSONFault(cp(e.jsn[ci]), op.C*7+op.D, op.D)
+		}
+		return digestClaims(psatoken.DecodeClaimsFromJSON(b))
 	case "dec-cose", "decv-cose":
 		var ev *psatoken.Evidence
 		var err error
